@@ -48,7 +48,7 @@ PROPS = {
     "C04": {"modules": [P + "C04", P + "C13"], "streams": ["fit", "cluster", "select"],
             "relevant": {"fit": [3], "cluster": [4]}},
     "C05": {"modules": [P + "C05"], "streams": ["heap"]},
-    "C06": {"modules": [P + "C06", P + "C06b"], "streams": ["dist"]},
+    "C06": {"modules": [P + "C06", P + "C06b", P + "C06Models"], "streams": ["dist"]},
     "C07": {"modules": [P + "C07"], "streams": ["dist", "fit", "select"], "relevant": {"dist": None}},
     "C09": {"modules": [P + "C09"], "streams": ["fit", "semi", "knnpred"], "relevant": {"predict": [0], "knnq": None}},
     "C15": {"modules": [P + "C15"], "streams": ["semi"], "relevant": {"fit": [0, 1, 2, 3, 5, 6], "lawfit": None}},
